@@ -223,7 +223,11 @@ func vC10Gen(r *vRand) vC10Case {
 		if c.Kind != 2 && r.chance(4) {
 			continue // this peer never gets to handle it
 		}
-		c.Actors = append(c.Actors, vC10Actor{Self: m, Follower: r.chance(6), NoRepin: globalNoRepin || r.chance(4)})
+		fol := r.chance(6)
+		if vc10In(c.Untrusted, m) && r.chance(60) {
+			fol = true // the usual layout: the members nobody trusts are followers
+		}
+		c.Actors = append(c.Actors, vC10Actor{Self: m, Follower: fol, NoRepin: globalNoRepin || r.chance(4)})
 	}
 	return c
 }
